@@ -222,17 +222,24 @@ pub fn first_diff(a: &[Ev], b: &[Ev]) -> String {
 }
 
 pub fn eval(c: &PCase) -> CaseOutcome {
+    eval_with(c, false, false)
+}
+
+/// `refusal_any`: a print command that must be refused may be answered with any of the emulator's reports (the
+/// 'Invalid input' line of the prompt or a message of the print reader)
+pub fn eval_with(c: &PCase, refusal_any: bool, interpreted: bool) -> CaseOutcome {
     let rendered = render_program(&c.prog, &c.layout);
     let flat = flatten(&c.prog);
     let lines: Vec<usize> = rendered.flat_offsets.iter().map(|o| rendered.line_of(*o)).collect();
     let image = data_image(&c.prog.data);
-    let cfg = RunCfg { interpreted: false, script: &c.script, lines: &lines, max_steps: 10_000, input_lines: None, buf_fill: None };
+    let cfg = RunCfg { interpreted, script: &c.script, lines: &lines, max_steps: 10_000, input_lines: None, buf_fill: None };
     let rr = ref_run(&flat, &image, &cfg, &Quirks::none());
     let stdin = script_bytes(&c.script);
-    let out = run_cli(rendered.text.as_bytes(), if c.script.is_empty() { Stdin::Closed } else { Stdin::Data(&stdin) }, false, 4 << 20, 20_000);
-    let exp = blank_lines(&normalise(&rr.events));
-    let replay = json!({"kind":"cli","source":rendered.text,"stdin":String::from_utf8_lossy(&stdin),"interpreted":false,
-        "blank_line_numbers": true, "expected_events": exp.iter().map(|e| format!("{:?}", e)).collect::<Vec<_>>()});
+    let out = run_cli(rendered.text.as_bytes(), if c.script.is_empty() { Stdin::Closed } else { Stdin::Data(&stdin) }, interpreted, 4 << 20, 20_000);
+    let lenient = |v: Vec<Ev>| -> Vec<Ev> { if refusal_any { v.into_iter().map(|e| if e == Ev::Invalid { Ev::PrintRefused } else { e }).collect() } else { v } };
+    let exp = lenient(blank_lines(&normalise(&rr.events)));
+    let replay = json!({"kind":"cli","source":rendered.text,"stdin":String::from_utf8_lossy(&stdin),"interpreted":interpreted,
+        "blank_line_numbers": true, "refusal_any": refusal_any, "expected_events": exp.iter().map(|e| format!("{:?}", e)).collect::<Vec<_>>()});
     match &out.status {
         Status::Timeout | Status::SpawnError(_) => return CaseOutcome::Inconclusive(format!("{:?}", out.status)),
         _ => {}
@@ -244,7 +251,7 @@ pub fn eval(c: &PCase) -> CaseOutcome {
         Ok(t) => t,
         Err(e) => return CaseOutcome::Fail { key: "c17|unparsable-output".into(), what: e, replay },
     };
-    let obs = blank_lines(&toks);
+    let obs = lenient(blank_lines(&toks));
     if exp != obs {
         let d = first_diff(&exp, &obs);
         let kind = if d.contains("Mem(") { "mem" } else if d.contains("Regs") { "reg" } else if d.contains("Flags") { "flags" } else if d.contains("PrintRefused") { "refusal" } else { "events" };
@@ -329,6 +336,82 @@ fn refusal_family() -> Vec<(String, String)> {
     v
 }
 
+/// print commands on both sides of every bound of the print reader, for a machine whose DS is `ds`: the last range
+/// that still fits (answered with exactly its bytes) and the first that does not (reported, nothing dumped, no abort)
+pub fn boundary_cmds(ds: u16) -> Vec<PromptCmd> {
+    let mb = 1u32 << 20;
+    let base = ds as u32 * 16;
+    let mut v: Vec<PromptCmd> = Vec::new();
+    let mut add = |p: PrintStmt, up: bool| {
+        let t = prompt_text(&p, up);
+        v.push(PromptCmd::Print(p, t));
+    };
+    for (k, (a, n)) in [(mb - 16, 15u32), (mb - 16, 16), (mb - 16, 17), (mb - 1, 0), (mb - 1, 1), (mb - 300, 299), (mb - 300, 300), (1, mb - 1), (mb - 1, mb - 1), (0x80000, 0x80000), (2, mb - 2)].into_iter().enumerate() {
+        add(PrintStmt::MemLen(a, n), k % 3 == 1);
+    }
+    for (k, (a, b)) in [(mb - 4, mb - 1), (mb - 1, mb - 1), (mb - 4, mb), (mb, mb + 1), (16, 15), (mb - 1, 0), (mb - 20, mb - 1)].into_iter().enumerate() {
+        add(PrintStmt::MemRange(a, b), k % 3 == 2);
+    }
+    for d in [-2i64, -1, 0, 1, 2, 16] {
+        // end = base + n; the last valid end is mb - 1
+        let n = mb as i64 - 1 - base as i64 + d;
+        if n < 0 || n >= mb as i64 {
+            continue;
+        }
+        // dumps that fit are only asked for when they are short
+        if d <= 0 && n > 600 {
+            continue;
+        }
+        add(PrintStmt::MemDs(n as u32), d == 1);
+    }
+    v
+}
+
+pub fn boundary_prompt_family(ctx: &Ctx, owner: &str) {
+    use rayon::prelude::*;
+    let dss = [0xFFFFu16, 0xFFF0, 0xFFDB, 0xFFDA, 0xF000, 0x8000, 0x1234, 0x0001, 0];
+    let outcomes: Vec<(u16, bool, CaseOutcome)> = dss
+        .par_iter()
+        .flat_map(|ds| [(*ds, false), (*ds, true)])
+        .map(|(ds, interpreted)| {
+            let mut code: Vec<Item> = vec![Item::Label("start".into())];
+            code.push(mov16(R16::AX, ds));
+            code.push(movsr(Seg::DS, R16::AX));
+            code.push(Item::Ins(Insn::new("mov", vec![Opd::Mem(W::W, Mem { seg: None, shape: Shape::Direct(0xFFFE_u16.wrapping_sub(ds << 4) & 0xFFF0) }), Opd::Imm(0xA55A, ImmKind::SW)])));
+            code.push(mov16(R16::BX, 0x1111));
+            let mut script: Vec<PromptCmd> = Vec::new();
+            if interpreted {
+                // -i: a prompt before every instruction; the commands are typed at the prompt of the last one
+                for _ in 0..4 {
+                    script.push(PromptCmd::Next("n".into()));
+                }
+            } else {
+                code.push(Item::Ins(Insn::new("int", vec![Opd::Imm(3, ImmKind::UB)])));
+            }
+            script.extend(boundary_cmds(ds));
+            script.push(PromptCmd::Next("next".into()));
+            code.push(Item::Print(PrintStmt::Reg));
+            if interpreted {
+                script.push(PromptCmd::Next("n".into()));
+            }
+            let c = PCase { prog: Program { data: vec![], code }, layout: Layout::plain(), script };
+            (ds, interpreted, eval_with(&c, true, interpreted))
+        })
+        .collect();
+    for (ds, interpreted, o) in outcomes {
+        ctx.add_evals(1);
+        match o {
+            CaseOutcome::Pass { .. } => {
+                ctx.add_nontrivial(1);
+                ctx.class(&format!("{}/prompt-boundary-family", owner), 1);
+            }
+            CaseOutcome::Fail { key, what, replay } => ctx.fail(Failure { key: format!("{}|prompt-boundary", key.replace("c17|", &format!("{}|", owner))), what: format!("boundary print commands at the prompt, DS={:04X}{}: {}", ds, if interpreted { " (-i)" } else { "" }, what), replay }),
+            CaseOutcome::Inconclusive(w) => ctx.inconclusive(&w),
+            CaseOutcome::Known(_) => {}
+        }
+    }
+}
+
 pub fn run(ctx: &Ctx) {
     ctx.set_rule("L3: proptest-generated programs establish a random machine state with MOV/PUSH/POPF/SAHF/flag-control instructions and data definitions (eight pairwise distinct non-zero general registers, DS/ES/SS, all nine flags, stores), then issue print reg / print flags / print mem in the three range forms (start/length over 0,1,15,16,17,255,256, ranges ending at FFFFFh, DS-relative with DS up to FFFFh, backward ranges; constants in decimal/hex/binary), each print twice in a row, in the program or typed at an INT 3 prompt; stdout is tokenised and compared event by event with the reference machine; plus a family of ranges leaving the 1 MiB space, which must be reported and not dumped. Non-trivial = a run that printed registers (pairwise distinct, non-zero) or a memory range whose length is not a multiple of 16.");
     ctx.assume("layout (tabs, blank separators) is normalised; the 16-cells-per-row rule, four upper-case hex digits per register and 0/1 flags are enforced by the output parser");
@@ -369,6 +452,7 @@ pub fn run(ctx: &Ctx) {
             });
         }
     }
+    boundary_prompt_family(ctx, "c17");
     ctx.require_class("c17/in-program", 100);
     ctx.require_class("c17/at-prompt", 50);
     ctx.require_class("c17/mem-len-not-multiple-of-16", 50);
